@@ -5,7 +5,11 @@
 export GOFLAGS=-mod=mod GOPROXY=off GOSUMDB=off
 D=$1; shift
 W=$(mktemp -d /tmp/sv.XXXX); rmdir $W
-git -C /repo worktree add -q --detach $W HEAD || exit 3
+# meta.json may name the commit the change was written against ("base"), for
+# changes that a later fix: commit made moot on the current tree
+BASE=$(python3 -c "import json,sys; print(json.load(open('$D/meta.json')).get('base','HEAD'))" 2>/dev/null || echo HEAD)
+git -C /repo worktree add -q --detach $W $BASE || exit 3
+[ "$BASE" != "HEAD" ] && echo "(base $BASE)"
 cleanup() { git -C /repo worktree remove --force $W 2>/dev/null; rm -rf $W; }
 trap cleanup EXIT
 ( cd $W && git apply $D/patch.diff ) || { echo "PATCH DOES NOT APPLY"; exit 3; }
